@@ -1,6 +1,11 @@
-import UvModel.Async
+import UvModel.Lemmas.AsyncLemmas3
 import UvModel.Generated.AsyncSeq
-/-! # C09 — property theorems for uv_async_send (model: UvModel.Async) -/
+/-! # C09 — uv_async_send: property theorems (model: UvModel.Async, invariants: UvModel.Lemmas.AsyncLemmas*)
+
+`Reachable s` = s is reached from `init nh ns` (any number of handles and sender threads) by ANY list of
+actions, i.e. every interleaving of sender steps, loop-thread steps, uv_close calls (between polls or inside
+a callback) and close callbacks.  Signal-handler sends are the interleavings in which the interrupted thread
+does not step while the handler's send runs. -/
 namespace UvModel.Props.C09
 open UvModel.Async
 
@@ -10,5 +15,170 @@ theorem wakeup_seq_matches_source : Generated.AsyncSeq.asyncWakeupSeq = wakeupPr
 theorem io_seq_matches_source : Generated.AsyncSeq.asyncIoSeq = ioProgram := by decide
 theorem spin_seq_matches_source : Generated.AsyncSeq.asyncSpinSeq = spinProgram := by decide
 theorem close_seq_matches_source : Generated.AsyncSeq.asyncCloseSeq = closeProgram := by decide
+
+/-! ## no lost wake-up -/
+
+/-- For every open handle with the pending flag set, the wake-up is not lost: the eventfd is readable, or a
+sender sits between its successful exchange and its eventfd write, or the loop thread is inside
+uv__async_io and has not yet passed the handle. -/
+theorem no_lost_wakeup {s : State} (hr : Reachable s) (h : Nat)
+    (hp : (s.hs h).pending ≠ 0) (ho : (s.hs h).closing = false) :
+    s.efd > 0 ∨ atWrite s ∨ willScan s h :=
+  (inv_reachable hr).W h hp ho
+
+/-- The loop never blocks while it owes a callback: loop in epoll with the eventfd at 0 and no sender about to
+write it ⇒ no open handle has pending set. -/
+theorem never_blocks_owing {s : State} (hr : Reachable s) (hl : s.lpc = .idle) (he : s.efd = 0)
+    (hs : ¬ atWrite s) (h : Nat) (ho : (s.hs h).closing = false) : (s.hs h).pending = 0 := by
+  by_cases hp : (s.hs h).pending = 0
+  · exact hp
+  · rcases no_lost_wakeup hr h hp ho with h1 | h1 | h1
+    · omega
+    · exact absurd h1 hs
+    · simp [willScan, hl] at h1
+
+/-- a state in which the hypotheses of `no_lost_wakeup` hold non-trivially: sender 0 has exchanged pending
+0→1 on handle 0 and is preempted before writing the eventfd, the loop is asleep -/
+example : let s := run (init 1 2) [.begin 0 0, .snd 0, .snd 0, .snd 0]
+    (s.hs 0).pending = 1 ∧ s.efd = 0 ∧ s.lpc = .idle ∧ (s.snd[0]?.map (·.pc)) = some .write := by decide
+
+/-- ... and one where the loop has drained the eventfd and a second send arrives before the scan reaches h -/
+example : let s := run (init 1 2) [.begin 0 0, .snd 0, .snd 0, .snd 0, .snd 0, .snd 0, .loop, .loop, .begin 1 0, .snd 1]
+    (s.hs 0).pending = 1 ∧ s.efd = 0 ∧ s.lpc = .scan 0 ∧ (s.snd[1]?.map (·.sent)) = some true := by decide
+
+/-! ## every send is followed by a callback -/
+
+/-- After uv_async_send returned on an open handle: either a callback that started after the call began has
+run (`seq ≤ seen`: it observed everything published before the call — the sequence number is taken when the
+call begins, `seen` is the number of sends begun when the latest callback started), or the flag is still
+pending and the wake-up is not lost, so the loop thread cannot stay blocked and will reach the handle. -/
+theorem send_then_callback {s : State} (hr : Reachable s) (t : Nat) (x : Sender) (hx : s.snd[t]? = some x)
+    (hidle : x.pc = .idle) (hsent : x.sent = true) (ho : (s.hs x.h).closing = false) :
+    x.seq ≤ (s.hs x.h).seen ∨ ((s.hs x.h).pending ≠ 0 ∧ (s.efd > 0 ∨ atWrite s ∨ willScan s x.h)) := by
+  rcases (inv_reachable hr).J t x hx (Or.inr (Or.inr ⟨hidle, hsent⟩)) ho with h1 | h1
+  · exact Or.inl h1
+  · exact Or.inr ⟨h1, no_lost_wakeup hr x.h h1 ho⟩
+
+/-- visibility at quiescence: when the loop is blocked and nobody is about to wake it, every returned send on
+an open handle has been observed by a callback that started after the send began -/
+theorem quiescent_all_sends_seen {s : State} (hr : Reachable s) (hl : s.lpc = .idle) (he : s.efd = 0)
+    (hs : ¬ atWrite s) (t : Nat) (x : Sender) (hx : s.snd[t]? = some x) (hidle : x.pc = .idle)
+    (hsent : x.sent = true) (ho : (s.hs x.h).closing = false) : x.seq ≤ (s.hs x.h).seen := by
+  rcases send_then_callback hr t x hx hidle hsent ho with h1 | ⟨h1, _⟩
+  · exact h1
+  · exact absurd (never_blocks_owing hr hl he hs x.h ho) h1
+
+example : let s := run (init 1 1) [.begin 0 0, .snd 0, .snd 0, .snd 0, .snd 0, .snd 0, .loop, .loop, .loop, .loop]
+    s.lpc = .idle ∧ s.efd = 0 ∧ (s.snd[0]?.map (fun x => (x.sent, x.seq))) = some (true, 1) ∧ (s.hs 0).seen = 1 ∧ (s.hs 0).cbs = 1 := by
+  decide
+
+/-- While a callback is owed on an open handle the system is never stuck: the loop thread can step, or (loop
+asleep with the eventfd at 0, or spinning in uv__async_spin for another handle) a sender inside uv_async_send can. -/
+theorem no_deadlock_while_owing {s : State} (hr : Reachable s) (h : Nat)
+    (hp : (s.hs h).pending ≠ 0) (ho : (s.hs h).closing = false) :
+    (step? s .loop).isSome = true ∨ ∃ t, (step? s (.snd t)).isSome = true :=
+  owed_implies_some_thread_enabled (inv_reachable hr) h hp ho
+
+def runN (σ : Nat → Act) (n : Nat) (s : State) : State := (List.range n).foldl (fun s i => step s (σ i)) s
+
+/-- FULL liveness statement — NOT proved.  In every infinite continuation without uv_close in which the loop
+thread and every sender are scheduled again and again, the callback of an open handle with a send owed starts.
+Proved towards it: `send_then_callback` (the obligation is recorded in `pending` and its wake-up is not lost),
+`no_deadlock_while_owing` (some thread can always move), `close_waits_for_critical_section`.  Missing: a
+termination measure for the scan of uv__async_io (position of h in `queue`/`handles`) under interleaved sender
+steps.  The scheduler harness checks this end-to-end for the enumerated configurations (every terminal and
+every quiescent state of the DFS is examined by the lost-wakeup / send-without-callback monitors). -/
+def send_then_callback_liveness : Prop :=
+  ∀ s, Reachable s → ∀ h, (s.hs h).pending ≠ 0 → (s.hs h).closing = false →
+    ∀ σ : Nat → Act, (∀ n h', σ n ≠ .close h') →
+      (∀ n, ∃ m, m ≥ n ∧ σ m = .loop) → (∀ n t, t < s.snd.length → ∃ m, m ≥ n ∧ σ m = .snd t) →
+      ∃ n, ((runN σ n s).hs h).cbs > (s.hs h).cbs
+
+/-! ## the callback never runs without a send -/
+
+/-- #callbacks(h) ≤ #sender exchanges that changed pending 0→1 on h -/
+theorem cb_only_after_send {s : State} (hr : Reachable s) (h : Nat) : (s.hs h).cbs ≤ (s.hs h).x01 := by
+  have := (inv_reachable hr).C h
+  omega
+
+/-- coalescing is real: two returned sends, one effective exchange, one callback -/
+example : let s := run (init 1 2) [.begin 0 0, .snd 0, .snd 0, .snd 0, .begin 1 0, .snd 1, .snd 0, .snd 0, .loop, .loop, .loop, .loop]
+    (s.hs 0).cbs = 1 ∧ (s.hs 0).x01 = 1 ∧ (s.hs 0).pub = 2 ∧ (s.hs 0).seen = 2 := by decide
+
+/-! ## close -/
+
+/-- once uv__async_close(h) has returned, h's callback never starts again, whatever happens next (in
+particular never after the close callback, which requires uv__async_close to have returned) -/
+theorem no_cb_after_close {s : State} (hr : Reachable s) (h : Nat) (hu : (s.hs h).unlinked = true)
+    (acts : List Act) : ((run s acts).hs h).cbs = (s.hs h).cbs :=
+  (closed_run (inv_reachable hr) hu acts).2
+
+theorem close_cb_implies_closed {s : State} (hr : Reachable s) (h : Nat) (hf : (s.hs h).freed = true) :
+    (s.hs h).unlinked = true :=
+  (inv_reachable hr).L.freedUnl h hf
+
+/-- non-vacuous: a handle closed from inside its own callback while a second send has set pending again -/
+example : let s := run (init 1 2) [.begin 0 0, .snd 0, .snd 0, .snd 0, .snd 0, .snd 0, .loop, .loop, .loop,
+                                   .begin 1 0, .snd 1, .snd 1, .snd 1, .snd 1, .snd 1, .close 0, .loop, .loop]
+    (s.hs 0).unlinked = true ∧ (s.hs 0).pending = 1 ∧ s.efd = 1 ∧ (s.hs 0).cbs = 1 ∧ s.lpc = .inCb 0 := by decide
+
+/-- uv_close is safe w.r.t. the loop's wake-up channel: after uv__async_close(h) returned no sender is about to
+write (or will ever write, by `Reachable` being closed under steps) the eventfd on behalf of h — including
+the senders that were already inside uv_async_send(h) when uv_close was called. -/
+theorem close_safe_no_wakeup_write {s : State} (hr : Reachable s) (t : Nat) (x : Sender)
+    (hx : s.snd[t]? = some x) (hu : (s.hs x.h).unlinked = true) : x.pc ≠ .write := by
+  intro hp
+  have := (inv_reachable hr).B.noWrite t x hx hp
+  simp [hu] at this
+
+/-- uv__async_spin really waits: the close cannot complete while a sender is between its two busy updates -/
+theorem close_waits_for_critical_section {s : State} (hr : Reachable s) (h : Nat) (r : LRet)
+    (hl : s.lpc = .closeSpin h r) (t : Nat) (x : Sender) (hx : s.snd[t]? = some x) (hh : x.h = h)
+    (hc : x.pc = .xchg ∨ x.pc = .write ∨ x.pc = .dec) : step? s .loop = none := by
+  have hb := (inv_reachable hr).B.busyEq h
+  have hpos : 0 < s.snd.countP (critB h) :=
+    List.countP_pos_iff.mpr ⟨x, List.mem_of_getElem? hx, by rcases hc with hc | hc | hc <;> simp [critB, hh, hc]⟩
+  have : (s.hs h).busy ≠ 0 := by omega
+  simp [step?, loopStep, hl, this]
+
+example : let s := run (init 1 1) [.begin 0 0, .snd 0, .snd 0, .close 0, .loop]
+    s.lpc = .closeSpin 0 .idle ∧ (s.snd[0]?.map (·.pc)) = some .xchg ∧ (s.hs 0).busy = 1 := by decide
+
+/-! ### handle memory
+
+Full-strength reading of "uv_close() is safe while a send on another thread is in progress" when the user
+releases the handle in its close callback (the documented pattern): FALSE of the code.  The busy counter only
+covers senders that have already executed `atomic_fetch_add(busy, 1)`; a sender preempted before that (before or
+after its first load of `pending`) touches the handle after uv__async_close returned and after the close callback. -/
+def close_safe_memory_full : Prop :=
+  ∀ s, Reachable s → MemSafe s
+
+/-- witness (replayed on the real code: harness schedule `s0 s0 c0 l l f s0`, ASan heap-use-after-free in
+uv_async_send at async.c:105): sender loads pending = 0; loop thread closes, spins (busy = 0), unlinks and
+runs the close callback; the sender is about to do `atomic_fetch_add(busy, 1)` on the released handle. -/
+theorem close_safe_memory_full_false : ¬ close_safe_memory_full := by
+  intro h
+  have hm := h (run (init 1 1) [.begin 0 0, .snd 0, .close 0, .loop, .loop, .closeCbs]) ⟨1, 1, _, rfl⟩
+    0 { pc := .inc, h := 0, seq := 1, sent := false } (by decide) (by decide)
+  revert hm
+  decide
+
+/-- Under the user contract "the close callback releases the handle only when no uv_async_send call on it is in
+flight" (`Contract`; a send may not be *started* on a closing handle in any case — `step? (.begin ..)`), no thread
+is ever inside uv_async_send on released memory. -/
+theorem close_safe_memory_under_contract {s : State} (hr : ReachC s) : MemSafe s :=
+  (reachC_inv hr).2
+
+/-- the contract does not forbid closing while a send is in flight: here the close completes and the close
+callback runs after the in-flight sender returned -/
+example : ReachC (run (init 1 1) [.begin 0 0, .snd 0, .close 0, .loop, .loop, .snd 0, .snd 0, .snd 0, .closeCbs]) := by
+  refine .step (a := .closeCbs) (.step (a := .snd 0) (.step (a := .snd 0) (.step (a := .snd 0) (.step (a := .loop)
+    (.step (a := .loop) (.step (a := .close 0) (.step (a := .snd 0) (.step (a := .begin 0 0) (.init 1 1)
+    ?_ rfl) ?_ rfl) ?_ rfl) ?_ rfl) ?_ rfl) ?_ rfl) ?_ rfl) ?_ rfl) ?_ rfl
+  all_goals first | (intro h; cases h; done) | skip
+  intro _ t x hx hp
+  match t, hx with
+  | 0, hx => simp [init, setSnd, setH, upd, LRet.toPc] at hx; subst hx; simp at hp
+  | t + 1, hx => simp [init, setSnd, setH, upd, LRet.toPc] at hx
 
 end UvModel.Props.C09
